@@ -195,6 +195,22 @@ def build_real(prog):
     import lightworks as lw
     from lightworks import qubit
     n = prog["n"]
+    if prog.get("hpos"):
+        # heralded (0-photon) modes declared directly on the circuit at arbitrary positions, also between the two
+        # rails of a qubit: the qubit rails are the remaining modes in order.  Built as S^-1 . G . S, with S a mode
+        # permutation that brings the rails to the front, so the gates themselves stay on adjacent modes.
+        total = 2 * n + len(prog["hpos"])
+        c = lw.Circuit(total)
+        for m in prog["hpos"]:
+            c.herald(0, m)
+        to_front = hpos_swaps(n, prog["hpos"])
+        if any(a != b for a, b in to_front.items()):
+            c.mode_swaps(dict(to_front))
+        inner = build_real({"n": n, "gates": prog["gates"]})
+        c.add(inner, 0)
+        if any(a != b for a, b in to_front.items()):
+            c.mode_swaps({b: a for a, b in to_front.items()})
+        return c
     kf, kb = prog.get("pad", [0, 0])
     c = lw.Circuit(kf + 2 * n + kb)
     for m in list(range(kf)) + list(range(kf + 2 * n, kf + 2 * n + kb)):
@@ -210,6 +226,37 @@ def build_real(prog):
         else:
             c.add(getattr(qubit, name)(**kw), kf + 2 * q)
     return c
+
+
+def hpos_swaps(n, hpos):
+    """Mode permutation {raw mode: position} bringing the qubit rails (non-heralded modes, in order) to 0..2n-1."""
+    total = 2 * n + len(hpos)
+    rails = [m for m in range(total) if m not in hpos]
+    order = rails + sorted(hpos)
+    return {m: i for i, m in enumerate(order)}
+
+
+def add_on_qubit(circ, prog, q, gate):
+    """Add a two-mode component on the rails of qubit q of a circuit built by build_real(prog)."""
+    if prog.get("hpos"):
+        sw = hpos_swaps(prog["n"], prog["hpos"])
+        moved = any(a != b for a, b in sw.items())
+        if moved:
+            circ.mode_swaps(dict(sw))
+        circ.add(gate, 2 * q)
+        if moved:
+            circ.mode_swaps({b: a for a, b in sw.items()})
+    else:
+        circ.add(gate, prog.get("pad", [0, 0])[0] + 2 * q)
+
+
+def scale_choice(scale_seed, i):
+    """Total 'number of shots' of the i-th requested circuit: noiseless frequencies may come with a different
+    total for every measurement circuit (different shot numbers, post-selection losses)."""
+    import random
+    if scale_seed is None:
+        return 1.0
+    return random.Random(scale_seed * 7919 + i).choice([1.0, 1.0, 1000.0, 0.37, 12345.678, 1 / 9, 3.0])
 
 
 def ulp_choice(ulp_seed, i):
@@ -235,7 +282,7 @@ def dual_rail_outputs(n):
     return [basis_state(n, b) for b in range(2 ** n)]
 
 
-def exact_counts(circ, n, vin, ulp_seed=None, normalise=False):
+def exact_counts(circ, n, vin, ulp_seed=None, normalise=False, scale=None):
     """Exact heralded, dual-rail post-selected outcome weights of a real circuit for input vin
     (own permanent on the public U_full and heralds).  With ulp_seed every weight is moved by -1, 0 or +1
     unit in the last place (a different but equally valid rounding of the same noiseless frequencies)."""
@@ -251,6 +298,8 @@ def exact_counts(circ, n, vin, ulp_seed=None, normalise=False):
             if k:
                 p = float(np.nextafter(p, math.inf if k > 0 else 0.0))
         out[lw.State(list(o))] = p
+    if scale is not None and scale != 1.0:
+        out = {k: v * scale for k, v in out.items()}
     if normalise:
         # relative frequencies instead of raw weights: computed from the normalised state vector, i.e. the
         # amplitudes are divided by the norm before squaring (another valid rounding of the same numbers)
